@@ -69,6 +69,14 @@ def main(tier):
                 c[0] += 1
                 st["n"] = c[0]
             G.walk(fp, f)
+        # some statements span two source lines (a block comment with a line break between mnemonic and operand): their
+        # bytes belong to the line they start on, the second line lists without bytes
+        def sp(st, scope):
+            if st["k"] == "insn" and st["form"] != "imp" and rnd.random() < 0.06:
+                st["split"] = True
+        G.walk(prog, sp)
+        for fp in files.values():
+            G.walk(fp, sp)
         src = G.render(prog)
         bpl = rnd.randrange(1, 17)
         move = rnd.random() < 0.5
